@@ -278,6 +278,14 @@ func (u *Unit) finish() {
 		if name == "" {
 			name = fmt.Sprint(i)
 		}
+		if hasFlag(b, "splitpaths") && len(parts) > 1 {
+			// one obligation per exit path (smaller queries for quantifier-heavy postconditions)
+			for k, p := range parts {
+				o := u.addMerged(fmt.Sprintf("%s/ensures#%s@exit%d", u.contractID(), name, k), clauseProps(b, c), []string{p}, c.Text)
+				o.Inputs = append(append([]ModelVar{}, u.inputs...), u.g.replayInputs(u)...)
+			}
+			continue
+		}
 		o := u.addMerged(fmt.Sprintf("%s/ensures#%s", u.contractID(), name), clauseProps(b, c), parts, c.Text)
 		o.Inputs = append(append([]ModelVar{}, u.inputs...), u.g.replayInputs(u)...)
 	}
